@@ -412,7 +412,8 @@ class SpecInapplicable(Exception):
 
 
 class LoopSpec:
-    def __init__(self, inv=None, variant=None, types=None, frame=None, kind=None, iter_src=None, hints=None):
+    def __init__(self, inv=None, variant=None, types=None, frame=None, kind=None, iter_src=None, hints=None, iter_post=None):
+        self.iter_post = iter_post  # lambda v, b, e: what one iteration does (b = state at the start of the body)
         self.inv = inv  # lambda v, e: formula or list of (label, formula); e = NS at loop entry
         self.variant = variant  # lambda v: int term that decreases and stays >= 0
         self.types = types or {}  # local name -> Ty for havocked locals whose type changes
